@@ -1009,3 +1009,92 @@ def sched_ops(case, rp):
                                     input=dict(nodes=nodes, task=task['description']),
                                     found_by='small-scope native enumeration (%d cases)' % n)
     return dict(confirmed=False, detail='%d grant/release round trips hold natively' % n)
+
+
+# ------------------------------------------------------------------------------
+# C14: why the agent ended
+#
+def mk_agent0(rp, runtime, started_ago, cause=None):
+    from radical.pilot.agent.agent_0 import Agent_0
+    import radical.pilot.utils as rpu
+    a = object.__new__(Agent_0)
+    a._log, a._prof = Stub(), Stub()
+    a._cfg = AttrDict(runtime=runtime)
+    a._starttime = time.time() - started_ago
+    a._final_cause = cause
+    a._pid = 'pilot.0000'
+    a._session = Stub()
+    a.publish = lambda *a_, **k: None
+    return a
+
+
+def _no_base_stop(rp):
+    """neutralise the component base class stop() (threads, bridges)"""
+    import radical.pilot.utils as rpu
+    saved = rpu.AgentComponent.stop
+    rpu.AgentComponent.stop = lambda self: None
+    return saved
+
+
+@builder('agent/agent_0.py:Agent_0.stop', 'agent/agent_0.py:Agent_0._check_lifetime',
+         'agent/agent_0.py:Agent_0._ctrl_cancel_pilots')
+def agent0_cause(case, rp):
+    import radical.pilot.utils as rpu
+    saved = _no_base_stop(rp)
+    probs = []
+    try:
+        # a pilot that ran until its requested run time
+        a = mk_agent0(rp, runtime=1, started_ago=61)
+        r = a._check_lifetime()
+        if r is not False: probs.append('_check_lifetime returned %r after the run time' % r)
+        if a._final_cause != 'timeout':
+            probs.append("run time exceeded, but the final cause is %r (the pilot will end %s, not DONE)"
+                         % (a._final_cause, {'cancel': 'CANCELED'}.get(a._final_cause, 'FAILED')))
+        # still within its run time
+        a = mk_agent0(rp, runtime=10, started_ago=1)
+        if a._check_lifetime() is not True or a._final_cause is not None:
+            probs.append('lifetime check fired early (cause %r)' % a._final_cause)
+        # cancel request naming / not naming this pilot
+        a = mk_agent0(rp, runtime=10, started_ago=1)
+        a._ctrl_cancel_pilots({'cmd': 'cancel_pilots', 'arg': {'uids': ['pilot.0000']}})
+        if a._final_cause != 'cancel': probs.append('named cancel gives cause %r' % a._final_cause)
+        a = mk_agent0(rp, runtime=10, started_ago=1)
+        a._ctrl_cancel_pilots({'cmd': 'cancel_pilots', 'arg': {'uids': ['pilot.0007']}})
+        if a._final_cause is not None: probs.append('cancel for another pilot gives cause %r' % a._final_cause)
+        # stop() keeps a cause that is already known
+        a = mk_agent0(rp, runtime=10, started_ago=1, cause='timeout')
+        a.stop()
+        if a._final_cause != 'timeout': probs.append("stop() replaced the cause 'timeout' by %r" % a._final_cause)
+    finally:
+        rpu.AgentComponent.stop = saved
+    return dict(confirmed=bool(probs), detail='; '.join(probs[:3]) or 'causes are kept natively',
+                input=dict(scenario='runtime=1 min, started 61 s ago; cancel named/other; stop() with cause timeout'))
+
+
+@builder('states.py:_pilot_state_progress')
+def pilot_state_progress(case, rp):
+    vals = rp.states._pilot_state_values
+    inv  = rp.states._pilot_state_inv
+    n = 0
+    for cur in vals:
+        for tgt in vals:
+            n += 1
+            try:
+                new, passed = rp.states._pilot_state_progress('p', cur, tgt)
+            except ValueError:
+                if cur == 'DONE' and tgt in ('FAILED', 'CANCELED'): continue
+                return dict(confirmed=True, detail='ValueError for %s -> %s' % (cur, tgt),
+                            input=dict(current=cur, target=tgt))
+            probs = []
+            if vals[new] < vals[cur]: probs.append('moved backward to %s' % new)
+            if cur in FINAL and new not in FINAL: probs.append('final state left for %s' % new)
+            if vals[tgt] > vals[cur]:
+                want = [inv[i] for i in range(vals[cur] + 1, vals[tgt])] + [tgt]
+                if new != tgt or list(passed) != want:
+                    probs.append('advance gives %s %s, expected %s %s' % (new, passed, tgt, want))
+            elif passed:
+                probs.append('passed %s although nothing to advance' % passed)
+            if probs:
+                return dict(confirmed=True, detail='; '.join(probs), input=dict(current=cur, target=tgt),
+                            found_by='exhaustive native enumeration (%d pairs)' % n)
+    return dict(confirmed=False, detail='all %d pairs hold natively' % n)
